@@ -200,7 +200,10 @@ class LayerResult:
             return False
         ok = True
         allbit = True
-        for a, m in zip(impl, model):
+        scales = list(np.atleast_1d(scale).ravel()) if scale is not None and np.ndim(scale) > 0 else None
+        for idx, (a, m) in enumerate(zip(impl, model)):
+            if scales is not None:
+                scale = scales[idx] if idx < len(scales) else scales[-1]
             if isinstance(m, str):
                 ok = False
                 break
@@ -224,7 +227,7 @@ class LayerResult:
         if not ok:
             self.disagreements.append(dict(what=what, input=inp, impl=impl.tolist(),
                                            model=[(float(m) if not isinstance(m, str) else m) for m in model],
-                                           scale=float(scale) if scale else 1.0))
+                                           scale=(scales if scales is not None else (float(scale) if scale else 1.0))))
         elif len(self.samples) < 3:
             self.samples.append(dict(what=what, input=inp, impl=impl.tolist()[:8],
                                      model=[float(m) for m in model][:8]))
